@@ -25,7 +25,7 @@ theorem popFirst_some {α : Type} {p : α → Bool} : ∀ {l : List α} {x : α}
       | none => simp [hr] at h
       | some yr =>
         obtain ⟨y, r'⟩ := yr
-        simp only [hr, Option.some.injEq, Prod.mk.injEq] at h
+        simp only [hr] at h
         obtain ⟨rfl, rfl⟩ := h
         obtain ⟨a, b, h1, h2, h3, h4⟩ := ih hr
         refine ⟨z :: a, b, by simp [h1], by simp [h2], h3, ?_⟩
